@@ -49,7 +49,7 @@ def correspondence(rep, ctx):
         "single-parent chains: every coefficient of every exponential compared as an exact rational with the model's "
         "C_ik*C^-1_kj, every exponent with r_k*ln2 at 1e-315 relative. distinct = distinct (inventory,time) / chains")
     conv = rd.converters.UnitConverterSympy
-    ncases = 160 if thorough else 22
+    ncases = 64 if thorough else 22
     cases = []
     for _ in range(ncases):
         contents, unit = gen.inventory(max_n=3)
@@ -114,7 +114,7 @@ def correspondence(rep, ctx):
                 elif hi - lo > REL * m / 16:
                     return False
             return True
-        encls, inconclusive = eval_adaptive(orc, ocases, need, kind="decay", P0=1500, Pmax=(6500 if thorough else 3100))
+        encls, inconclusive = eval_adaptive(orc, ocases, need, kind="decay", P0=1500, Pmax=(4600 if thorough else 3100))
         rep.inconclusive += len(inconclusive)
         bad = 0
         for j, ((c, dec), (n0, ts)) in enumerate(zip(reals, ocases)):
